@@ -305,6 +305,13 @@ class CallMixin:
                     raise Unsupported(f"missing dataclass field {fname}")
                 self.set_field(s, o, fname, v)
             self.seal(s, o, cname, before)
+            if cname in (self.specs.get('@constructor_site_invariants') or ()) and not self.qvars and self.top_spec is not None \
+                    and self.top_spec.class_invariants:
+                # a class whose declared invariant has no __init__ to carry it: every construction in verified code is an obligation
+                inv = (self.specs.get('@class_invariants') or {}).get(cname)
+                inv = inv[0] if isinstance(inv, tuple) else inv
+                self._node = node if node is not None else self._node
+                self.check(s, inv(self, view(self, s, o)), f"classinv[{self.site(s, 'call')}]::{cname}", 'class-invariant')
             yield s, o
             return
         cinfo, fn = fm
